@@ -34,6 +34,8 @@ def build_jobs(tier, seed):
     jobs.append(J(H['compat'], {}))
     for k in ((1, 2) if tier == 'quick' else (1, 2, 3)):
         jobs.append(J(H['predicate'], dict(k=k), split_depth=8))
+    jobs.append(J(H['predicate'], dict(k=2 if tier == 'quick' else 3,
+                                       concrete_ops=True), split_depth=6))
     return jobs
 
 
